@@ -249,6 +249,31 @@ def r4_budget(rep, facts, g):
     cds = [n for n in calls_in(b['body']) if any(c.endswith('RecursionCheck::check_depth') for c in callee_all(n))]
     rep.check(R, 'key::key|checks-depth', len(cds) >= 1, 'key() calls RecursionCheck::check_depth',
               'the key-path parser no longer checks the number of dotted segments: an `[[a.a.a…]]` header or dotted key builds a tree as deep as it is long', loc)
+    # the failure of the length check must leave the key parser: a check sitting inside the element of a repetition (or of an optional / alternative part) fails
+    # with a recoverable error there, the repetition just ends, and the over-long path is reported as a syntax error — or, worse, accepted in part
+    def find_checks(t, above, out):
+        if isinstance(t, dict):
+            if t.get('op') == 'map' and t.get('kind') in ('try_map', 'verify_map', 'verify', 'map', 'and_then') and isinstance(t.get('filt') or t.get('node'), dict) and \
+                    any(any(c.endswith('RecursionCheck::check_depth') for c in callee_all(n)) for n in calls_in(t.get('filt') or {})):
+                out.append((t, list(above)))
+            is_cut = t.get('op') == 'map' and t.get('kind') == 'cut_err'
+            nxt = [] if is_cut else above + ([t] if t.get('op') in ('sep', 'rep', 'opt', 'alt', 'fold') else [])
+            for kk, v in t.items():
+                if kk in ('node', 'filt', 'recv', 'args'):
+                    continue
+                find_checks(v, nxt, out)
+        elif isinstance(t, list):
+            for x in t:
+                find_checks(x, above, out)
+        return out
+    try:
+        sites = find_checks(term(g, 'key::key'), [], [])
+        inside = [(s_, ab) for s_, ab in sites if ab]
+        rep.check(R, 'key::key|check-escapes', bool(sites) and not inside, 'the check is applied to the whole path, outside every repetition',
+                  'the depth check of `key::key` ' + (f'sits inside a `{inside[0][1][-1].get("op")}` combinator (line {inside[0][1][-1].get("l")}): its failure is recoverable there, the repetition ends '
+                                                    'with the segments parsed so far and the recursion-limit error is lost' if inside else 'was not found in the combinator model'), loc)
+    except Exception as ex:      # the model of key() could not be walked
+        rep.incomplete(R, 'key::key|check-escapes', f'cannot walk the combinator model of key::key: {ex}', loc)
     # all consumers of key paths get them from key(): the parsers that feed on_keyval / headers / table_from_pairs mention key
     for fn in ('document::parse_keyval', 'table::std_table', 'table::array_table', 'inline_table::keyval'):
         t = term(g, fn)
